@@ -143,7 +143,7 @@ def run(ob: Ob, excluded: List[str], timeout: float) -> Dict[str, Any]:
     stats: collections.Counter = collections.Counter()
     options = AnalysisOptionSet(
         per_condition_timeout=timeout,
-        per_path_timeout=max(10.0, timeout / 3),
+        per_path_timeout=1e30,  # no z3 wall-clock timer (its timer thread spin-yields under load); the runner enforces the budget
         report_all=True,
         max_uninteresting_iterations=10**9,
         max_iterations=10**9,
